@@ -53,6 +53,17 @@ func c05Probes(r *simnet.Rng, s *spec.RunSpec, n int) {
 		p.HoldUs = int64(r.Pick(500000, 2000000, 15000000, 130000000))
 		s.Attack.Probes = append(s.Attack.Probes, p)
 	}
+	if tr == "udp" && r.Bool(0.3) {
+		// on-path attacker: swallows the first datagram of client 0 and sends proper prefixes of it
+		s.Net.Rules = append(s.Net.Rules, spec.DgramRule{Client: 0, Dir: 0, Index: 0, Kind: "drop"})
+		for i := range s.Attack.Probes {
+			p := &s.Attack.Probes[i]
+			if p.Kind == "prefix" || p.Kind == "trunc" {
+				p.Intercepted, p.Source = true, 0
+				p.CutTail = r.Pick(1, 2, 5, 16, 17, 1+r.Intn(60))
+			}
+		}
+	}
 }
 
 // c05Enumerate: every prefix and every single-bit mutation of one genuine first
@@ -95,6 +106,36 @@ func c05Enumerate(bin string, master uint64, tier string) ([]*spec.RunSpec, []st
 			k++
 		}
 		out = append(out, s)
+		// Truncations of a first segment that the attacker intercepted: the original never
+		// reaches the server, so nothing but the segment's own checks can refuse the copy.
+		// The server remembers a handshake as soon as its metadata decrypts, so a second
+		// truncation of the same segment would be refused as a replay: every truncation
+		// gets a victim of its own (one client each, first segment swallowed).
+		victims := 36
+		if tier == "thorough" {
+			victims = 150
+		}
+		si := cloneSpec(s)
+		si.Seed = simnet.H(master, "c05-enum-intercepted-"+tr)
+		si.Profile = "c05-enum-intercepted-" + tr
+		si.Attack = &spec.Attack{}
+		si.Clients = nil
+		for v := 0; v < victims; v++ {
+			cv := c
+			cv.IP = fmt.Sprintf("10.0.%d.%d", 1+v/200, 1+v%200)
+			cv.Sessions = []spec.Session{c.Sessions[0]}
+			cv.Sessions[0].StartUs = int64(v) * 1000
+			cv.Sessions[0].C2S = spec.Script{Writes: []int{200}, GapsUs: []int64{1000}, ReadBufs: []int{32768}, ReadGapUs: 1}
+			cv.Sessions[0].S2C = spec.Script{Writes: []int{100}, GapsUs: []int64{1000}, ReadBufs: []int{32768}, ReadGapUs: 1}
+			si.Clients = append(si.Clients, cv)
+			if tr == "udp" {
+				si.Net.Rules = append(si.Net.Rules, spec.DgramRule{Client: v, Dir: 0, Index: 0, Kind: "drop"})
+			} else {
+				si.Net.Stream = append(si.Net.Stream, spec.StreamFault{Conn: v, Dir: 0, Kind: "rewrite", Off: 0, Del: 1 << 40})
+			}
+			si.Attack.Probes = append(si.Attack.Probes, spec.Probe{Kind: "prefix", Transport: tr, IP: attackerIP(v), AtUs: int64(victims+v)*1000 + 50000, Source: v, CutTail: 1 + v, HoldUs: 3000000, Intercepted: true})
+		}
+		out = append(out, si)
 	}
 	return out, nil
 }
